@@ -332,9 +332,9 @@ theorem acc_parkMgr (s : State) (cont : MgrCont) (p : Peer) (id : Id) (ops : Lis
                    punp := parkUnp (some { cont, peer := p, id, ops, granted := false }) } := rfl
 
 theorem acc_unpark_buildNow (s : State) (p : Peer) (id : Id) (ops : List TxOp) :
-    acc (buildNow { s with park := none } p id ops) = { acc s with pnew := none, punp := none } := by
-  have h1 := li_buildNow { s with park := none } p id ops
-  have h2 := pi_buildNow { s with park := none } p id ops
+    acc (buildNow { s with park := none } .mgr p id ops) = { acc s with pnew := none, punp := none } := by
+  have h1 := li_buildNow { s with park := none } .mgr p id ops
+  have h2 := pi_buildNow { s with park := none } .mgr p id ops
   rw [acc_of_li_pi h1 h2]; rfl
 
 end GS.RespLife
